@@ -44,7 +44,8 @@ def record(sessions, repo, solve):
     for s, (events, status) in zip(sessions, results):
         if status != "ok" or not events:
             raise common.MachineryError("harness failure in roborta session %s: %s" % (s["tid"], status))
-        s.update({k: events[0][k] for k in ("keys", "loaderr", "games", "exact", "raw", "outcomes", "created")})
+        s.update({k: events[0][k] for k in ("keys", "loaderr", "games", "exact", "raw", "outcomes", "created",
+                                             "depiction")})
         if "board" in events[0]:          # command-line sessions: the board the seed defines
             s["board"] = events[0]["board"]
         s.setdefault("via", "write")
@@ -60,7 +61,7 @@ def validate(sessions, work, want, res):
     for i in range(nsh):
         path = os.path.join(work, "rob_%d.json" % i)
         recs = [{k: s[k] for k in ("tid", "board", "probs", "keys", "loaderr", "games", "exact", "raw", "outcomes",
-                                   "created", "via", "loadonly")}
+                                   "created", "via", "loadonly", "depiction")}
                 for s in order[i::nsh]]
         obs.check_ints(recs)
         with open(path, "w") as f:
@@ -193,6 +194,10 @@ def run(prop, tier, seed, repo):
                 raise common.MachineryError("no verdict for session %s" % s["tid"])
             for n in v["notes"]:
                 res.notes[n] = res.notes.get(n, 0) + 1
+            for c in v["fails"]:
+                if c.startswith("X."):
+                    # growth beyond the listed properties: reported in the evidence, never a verdict
+                    res.notes["beyond:" + c] = res.notes.get("beyond:" + c, 0) + 1
             if s["board"]["L"] * s["board"]["W"] >= 2:
                 distinct.add(json.dumps([s["board"], s["probs"]], sort_keys=True))
             bad = sorted(c for c in v["fails"] if c.startswith(prop + "."))
